@@ -105,6 +105,8 @@ Judge(k, beyond) ==
          THEN IF PrefixClaim
               THEN Decide("accepted", <<"prefix-of-divergent-run", k - 1>>)
               ELSE Decide("rejected", <<"returned-but-canonical-run-diverges", Claim, steps'>>)
+         ELSE IF div' /\ divSilent'    \* the canonical run is silent for ever, the log is not
+         THEN Decide("rejected", <<"event-after-silent-divergence", k, Log[k]>>)
          ELSE Decide("run", why)
 
 TraceNext ==
